@@ -176,6 +176,13 @@ use rooc::model_transformer::VariableKind;
 use rooc::pre_model::PreModel;
 use rooc::{IterableSet, OptimizationType, PreConstraint};
 
+/// Contract of `Display for Primitive::Number` (number tokens are opaque in the Lean printer): Rust's shortest
+/// round-trip `f64` Display, except that an integral value outside the i64 range keeps a fractional part (`1e20` is
+/// written `100000000000000000000.0`), because the grammar reads an all-digit literal through i64.
+pub fn number_text(v: f64) -> String {
+    if v.is_finite() && v.fract() == 0.0 && v.abs() >= 9223372036854775808.0 { format!("{}.0", v) } else { v.to_string() }
+}
+
 /// full `PreExp` (every variant) with numbers as Rust displays them
 pub fn pre_exp_full(e: &PreExp) -> String {
     let list = |head: &str, name: &str, es: &[PreExp]| {
@@ -188,7 +195,7 @@ pub fn pre_exp_full(e: &PreExp) -> String {
         PreExp::Primitive(p) => match p.value() {
             Primitive::Integer(i) if *i >= 0 => format!("(int {})", i),
             Primitive::PositiveInteger(i) => format!("(int {})", i),
-            Primitive::Number(n) => format!("(num {})", sx::q(&n.to_string())),
+            Primitive::Number(n) => format!("(num {})", sx::q(&number_text(*n))),
             Primitive::Boolean(b) => format!("(bool {})", b),
             Primitive::String(s) => format!("(str {})", sx::q(s)),
             other => format!("(prim {})", sx::q(&other.to_string())),
@@ -257,4 +264,65 @@ pub fn pre_model(m: &PreModel) -> String {
     for d in m.domains() { s.push(' '); s.push_str(&domain_decl(d)); }
     s.push_str("))");
     s
+}
+
+// ------------------------------------------------------------------------------ C11, program-level parser model
+/// `PreModel` as the program-level parser model answers it: numbers by their lexeme in `src`, fragment without
+/// iterations (anything else is encoded as `(other …)` and cannot match)
+pub fn pre_model_lex(m: &PreModel, src: &str) -> String {
+    let e = |x: &PreExp| pre_exp(x, src);
+    let oe = |x: &Option<PreExp>| match x { Some(x) => pre_exp(x, src), None => "none".to_string() };
+    let o = m.objective();
+    let kind = match o.objective_type { OptimizationType::Min => "min", OptimizationType::Max => "max", OptimizationType::Satisfy => "solve" };
+    let mut s = format!("(premodel (obj {} {}) (constraints", kind, e(&o.rhs));
+    for c in m.constraints() {
+        s.push_str(&format!(" (c {} {} {} {} {} {})",
+            match &c.name_exp { Some(n) => variable(n.value()), None => "none".into() },
+            e(&c.lhs), sx::cmp(c.constraint_type), e(&c.rhs), c.is_logic_assertion, iters(&c.iteration)));
+    }
+    s.push_str(") (consts");
+    for k in m.constants() { s.push_str(&format!(" (let {} {})", sx::q(k.name.value()), e(&k.value))); }
+    s.push_str(") (domains");
+    for d in m.domains() {
+        s.push_str(" (dom (vars");
+        for v in d.variables() { s.push(' '); s.push_str(&variable(v.value())); }
+        let ty = match d.get_type() {
+            PreVariableType::Boolean => "bool".to_string(),
+            PreVariableType::NonNegativeReal(a, b) => format!("(nnreal {} {})", oe(a), oe(b)),
+            PreVariableType::Real(a, b) => format!("(real {} {})", oe(a), oe(b)),
+            PreVariableType::IntegerRange(a, b) => format!("(intrange {} {})", e(a), e(b)),
+        };
+        s.push_str(&format!(") {} {})", ty, iters(d.iteration())));
+    }
+    s.push_str("))");
+    s
+}
+
+/// light lexical filter for the program fragment the Lean parser model reads (no brackets, braces, strings, escapes,
+/// iterations, inner underscores; `.` only inside a decimal literal or `s.t.`)
+pub fn in_program_fragment(src: &str) -> bool {
+    let cs: Vec<char> = src.chars().collect();
+    for (i, &c) in cs.iter().enumerate() {
+        let ok = c.is_ascii_alphanumeric() || "éèêíıñüößλд".contains(c) || " \t\n$_(),+-*/!<>=&|:.".contains(c);
+        if !ok { return false; }
+        if c == '_' && i > 0 && (cs[i - 1].is_alphanumeric()) { return false; }
+        if c == '.' {
+            let digit_side = i > 0 && i + 1 < cs.len() && cs[i - 1].is_ascii_digit() && cs[i + 1].is_ascii_digit();
+            let st = (i >= 1 && (cs[i - 1] == 's' || cs[i - 1] == 'S') && i + 2 < cs.len() && (cs[i + 1] == 't' || cs[i + 1] == 'T') && cs[i + 2] == '.')
+                || (i >= 3 && (cs[i - 1] == 't' || cs[i - 1] == 'T') && cs[i - 2] == '.' && (cs[i - 3] == 's' || cs[i - 3] == 'S'));
+            if !digit_side && !st { return false; }
+        }
+        if (c == '&' || c == '|') && !((i + 1 < cs.len() && cs[i + 1] == c) || (i > 0 && cs[i - 1] == c)) { return false; }
+    }
+    let lower = src.to_ascii_lowercase();
+    for w in lower.split(|c: char| !(c.is_alphanumeric() || c == '_' || c == '$')) {
+        if w == "for" || w == "in" || w == "graph" || w == "subject" { return false; }
+    }
+    // a word starting with `_` directly after a word would be glued into a compound variable
+    let toks: Vec<&str> = src.split_whitespace().collect();
+    for p in toks.windows(2) {
+        let a_word = p[0].chars().last().map(|c| c.is_alphanumeric()).unwrap_or(false);
+        if a_word && p[1].starts_with('_') { return false; }
+    }
+    true
 }
